@@ -155,9 +155,11 @@ pub(crate) fn parse_origin(s: &str) -> (Option<OriginCategory>, Origin) {
 }
 
 pub(crate) fn format_origin(category: &Option<OriginCategory>, origin: &Origin) -> String {
-    format!(
-        "{}{}",
-        category.map(|c| c.to_string() + ", ").unwrap_or_default(),
-        origin
-    )
+    let origin = origin.to_string();
+    match category {
+        // a bare category keyword ("Origin: vendor") has no location part
+        Some(c) if origin.is_empty() => c.to_string(),
+        Some(c) => format!("{}, {}", c, origin),
+        None => origin,
+    }
 }
